@@ -45,6 +45,13 @@ for sd, d, how, needs in rows:
 n_yes = sum(1 for r in rows if r[1] == 'yes')
 tab.append("")
 tab.append(f"{n_yes} of {len(rows)} seeded changes are reported as violations by the quick check of their own property.")
+notes = json.load(open(os.path.join(HERE, 'tools', 'seed_notes.json'))) if os.path.exists(os.path.join(HERE, 'tools', 'seed_notes.json')) else {}
+if notes:
+    tab.append("")
+    tab.append("Notes on individual seeds:")
+    tab.append("")
+    for k in sorted(notes):
+        tab.append(f"* **{k}** — {notes[k]}")
 dp = os.path.join(HERE, 'DESIGN.md')
 s = open(dp).read()
 block = "<!-- SEED-TABLE-BEGIN -->\n" + "\n".join(tab) + "\n<!-- SEED-TABLE-END -->"
